@@ -303,6 +303,12 @@ def run_unit(ctx, exe, batches, label, monitors_only=False):
         text = f"iovmax {iovmax}\n" + "\n".join(cmds) + "\n"
         rc, iout, ierr = ctx.run(exe, text=text)
         il = iout.splitlines()[1:]
+        us = ctx.notes.setdefault("unit_syscalls", {"calls": 0, "eintr": 0, "errors": 0, "zero_results": 0,
+                                                    "calls_with_full_iov_max": 0})
+        us["calls"] += iout.count("\ncall "); us["eintr"] += iout.count(" ret=E4 ") + iout.count(" ret=E4\n")
+        us["errors"] += iout.count(" ret=E") - iout.count(" ret=E4 ") - iout.count(" ret=E4\n")
+        us["zero_results"] += iout.count(" ret=0 ")
+        us["calls_with_full_iov_max"] += sum(1 for l in il if l.startswith("call ") and len(unrle(l.split()[3][4:])) == iovmax and iovmax > 1)
         gi = split_outputs(cmds, il)
         gm = None
         if not monitors_only:
